@@ -119,7 +119,9 @@ def judgeAll (cases : Array Case) (obs : Array ObsLine) (f : Case â†’ ObsLine â†
       match f c o with
       | .ok => pure ()
       | .disagree w e g =>
-        let j := Json.mkObj [("id", (c.id : Json)), ("what", (w : Json)), ("op", (c.op : Json)), ("a", c.args), ("expected", (e : Json)), ("observed", (g : Json)), ("tag", (c.tag : Json)), ("note", c.note), ("kf", (c.note.getObjVal? "kf").toOption.getD ("" : Json))]
+        -- a judge marks a failure that is not of the listed known kind with the prefix "[new] "
+        let kfj : Json := if w.startsWith "[new] " then ("" : Json) else (c.note.getObjVal? "kf").toOption.getD ("" : Json)
+        let j := Json.mkObj [("id", (c.id : Json)), ("what", (w : Json)), ("op", (c.op : Json)), ("a", c.args), ("expected", (e : Json)), ("observed", (g : Json)), ("tag", (c.tag : Json)), ("note", c.note), ("kf", kfj)]
         r := { r with disagreements := r.disagreements.push j }
       | .violation w d =>
         let j := Json.mkObj [("id", (c.id : Json)), ("what", (w : Json)), ("op", (c.op : Json)), ("a", c.args), ("detail", (d : Json)), ("tag", (c.tag : Json)), ("kf", (c.note.getObjVal? "kf").toOption.getD ("" : Json))]
